@@ -5,10 +5,10 @@ import gens_algos
 from props.common import TRUSTED_BASE, ASSUMPTIONS
 
 ID = "C01"
-LEAN_MODULES = ["LexVerif.Props.C01", "LexVerif.Props.RoundNE", "LexVerif.Props.TablesParse", "LexVerif.Props.Literals.ParseFloatParse", "LexVerif.Props.Literals.ParseFloatNumber", "LexVerif.Props.Literals.ParseFloatLemire", "LexVerif.Props.Literals.ParseFloatBellerophon", "LexVerif.Props.Literals.ParseFloatSlow", "LexVerif.Props.Literals.ParseFloatBigint", "LexVerif.Props.Literals.ParseFloatShared", "LexVerif.Props.Literals.ParseFloatFloat", "LexVerif.Props.Literals.ParseFloatMask", "LexVerif.Props.Literals.ParseFloatLimits", "LexVerif.Props.Literals.ParseIntegerAlgorithm", "LexVerif.Props.Literals.UtilDigit", "LexVerif.Props.Literals.UtilStep", "LexVerif.Props.LiteralsModel"]
+LEAN_MODULES = ["LexVerif.Props.C01", "LexVerif.Props.RoundNE", "LexVerif.Props.TablesParse", "LexVerif.Props.Literals.ParseFloatParse", "LexVerif.Props.Literals.ParseFloatNumber", "LexVerif.Props.Literals.ParseFloatLemire", "LexVerif.Props.Literals.ParseFloatBellerophon", "LexVerif.Props.Literals.ParseFloatSlow", "LexVerif.Props.Literals.ParseFloatBigint", "LexVerif.Props.Literals.ParseFloatShared", "LexVerif.Props.Literals.ParseFloatFloat", "LexVerif.Props.Literals.ParseFloatMask", "LexVerif.Props.Literals.ParseFloatLimits", "LexVerif.Props.Literals.ParseIntegerAlgorithm", "LexVerif.Props.Literals.UtilDigit", "LexVerif.Props.Literals.UtilStep", "LexVerif.Props.LiteralsModel", "LexVerif.Props.C01Main"]
 GEN = ["parse_tables", "literals"]
 TRUSTED = TRUSTED_BASE + [
-    "Eisel-Lemire is proved only on the exact-product range 0 <= q <= 27, the two cut-offs and for the many_digits wrapper (relative to compute_float); for q in [-342,-1] and [28,308] (truncated table rows) and for the big-integer slow path correctness is NOT proved in Lean: there the Lean model (Model/Lemire.lean) is tied to the code by component-level correspondence and compared with the oracle on number-theoretic worst cases; Bellerophon (compact builds) IS proved sound on its Lean model (Props/C01.lean bellerophon_sound), the model being tied to the code by the bel component stream",
+    "Eisel-Lemire: valid answers of compute_float are proved correct for every q >= 0 (exact rows 0..27; truncated rows 28..308 by the stability argument of Proof/LemireStable.lean) and beyond both cut-offs, and the many_digits wrapper relative to compute_float; OPEN (named Props in Props/C01.lean, lemire_sound_reduction): LemireNegSound (q in [SMALLEST_POWER_OF_TEN,-1]) and LemireFallbackBrackets (invalid-marked answers bracket the value); the big-integer slow path is NOT modelled (Props/C01Main.lean: SlowPathCorrect is a named hypothesis; NumberExact likewise). There the Lean model (Model/Lemire.lean) is tied to the code by component-level correspondence and compared with the oracle on number-theoretic worst cases; Bellerophon (compact builds) IS proved sound on its Lean model (Props/C01.lean bellerophon_sound), the model being tied to the code by the bel component stream",
     "IEEE assumption of the fast path: u64->float conversion, float * and / are correctly rounded (Model/ExtFloat.lean: ofU64, fmul, fdiv)",
 ]
 RULE = ("G-ties: literals that are EXACTLY half-way between two adjacent floats for every q of the round-to-even window (plus just-above/just-below variants); G-hard: per decimal power q, mantissas m < 10^19 (and near 2^53, and short) for which m*10^q is closest to a midpoint "
@@ -17,8 +17,8 @@ RULE = ("G-ties: literals that are EXACTLY half-way between two adjacent floats 
         "decimals; component level (gens_algos.py): compute_float on every q in [-342,308] x {1, 2^p-1, 2^p, 2^64-1, worst-case mantissas of hard/data and their neighbours, random, sparse}, lemire / bellerophon with many_digits and lossy both ways, try_fast_path over all exponents and boundary mantissas. non-trivial = accepted literal with a finite non-zero result or a result decided at a cut-off; distinct = distinct op lines")
 
 
-TECHNIQUE = 'Lean 4 proof (oracle roundNE nearest/ties-even; all power/limit tables kernel-checked against closed forms; fast path exact; Eisel-Lemire on its exact-product range and cut-offs; two-pass wrapper) + component- and API-level correspondence on number-theoretic worst cases'
-LEVEL_TEXT = 'Proved in Lean for all inputs: the specification oracle (roundNE is the nearest float, ties to even, monotone, exact on floats, correct overflow threshold) and, for every row, that the Eisel-Lemire / small-power / Bellerophon / big-integer tables and limits regenerated from the compiled crate equal their closed forms. Also proved on Lean models tied to the code by component-level correspondence (ops fp/cf/lm/bel): try_fast_path returns roundNE(m*10^e) whenever it answers (fastPath_exact, normal and disguised, both float types, all builds); compute_float is valid and equals roundNE(w*10^q) for every w < 2^64 when q < SMALLEST_POWER_OF_TEN, q > LARGEST_POWER_OF_TEN or 0 <= q <= 27 (lemire_sound_partial; the full statement lemire_sound is kept as a Prop); the many_digits two-pass wrapper is correct for every value in [w, w+1]*10^q relative to compute_float (lemire_wrapper). Bellerophon (the moderate path of compact builds) is proved sound on its model: every valid non-lossy answer is roundNE of the true value, truncated mantissas included (bellerophon_sound: table facts kernel-checked on the accessors, mul = exact product rounded half-up, error accounting against the truncated tables, error_is_accurate decision, rounding). NOT proved: Eisel-Lemire outside that range and the big-integer slow path; they are compared with the oracle on worst-case inputs (closest-to-midpoint mantissas per power, truncation-crossing and long-tail literals, exponent cut-offs) on four to eight feature sets. Partial proof, stated as such.'
+TECHNIQUE = 'Lean 4 proof (oracle roundNE nearest/ties-even; all power/limit tables kernel-checked against closed forms; fast path exact; Eisel-Lemire for every q >= 0 and the cut-offs; two-pass wrapper; API-level pipeline theorem C01_main with named hypotheses) + component- and API-level correspondence on number-theoretic worst cases'
+LEVEL_TEXT = 'Proved in Lean for all inputs: the specification oracle (roundNE is the nearest float, ties to even, monotone, exact on floats, correct overflow threshold) and, for every row, that the Eisel-Lemire / small-power / Bellerophon / big-integer tables and limits regenerated from the compiled crate equal their closed forms. Also proved on Lean models tied to the code by component-level correspondence (ops fp/cf/lm/bel): try_fast_path returns roundNE(m*10^e) whenever it answers (fastPath_exact, normal and disguised, both float types, all builds); a valid answer of compute_float equals roundNE(w*10^q) for every w < 2^64 and every q >= 0 or beyond the cut-offs (lemire_sound_partial, lemire_sound_nonneg: truncated rows 28..308 by stability of the upper product bits, no continued fractions; the full statement lemire_sound is kept as a Prop and reduced by lemire_sound_reduction to the two open sub-lemmas LemireNegSound and LemireFallbackBrackets); the many_digits two-pass wrapper is correct for every value in [w, w+1]*10^q relative to compute_float (lemire_wrapper). Bellerophon (the moderate path of compact builds) is proved sound on its model: every valid non-lossy answer is roundNE of the true value, truncated mantissas included (bellerophon_sound: table facts kernel-checked on the accessors, mul = exact product rounded half-up, error accounting against the truncated tables, error_is_accurate decision, rounding). The composition is machine-checked (Props/C01Main.lean): parseFloatAlgoModel = syntax -> try_fast_path -> moderate_path -> slow_path -> to_native, tied to the API by the pipe-* streams; C01_main: lemire_sound -> SlowPathCorrect slow -> NumberExact -> the pipeline model prints litBits of the digit content for every untruncated decimal input (non-compact builds); unconditional corollaries for fast-path inputs, Eisel-Lemire with q >= 0 or on its cut-offs, Bellerophon-decided inputs (compact) and power-of-two radices. NOT proved: Eisel-Lemire for negative q inside the table, the bracket of its fall-back answers, and the big-integer slow path; they are compared with the oracle on worst-case inputs (closest-to-midpoint mantissas per power, truncation-crossing and long-tail literals, exponent cut-offs) on four to eight feature sets. Partial proof, stated as such.'
 LEVEL_NOTE = "Trusted: Lean kernel; rustc; the dump binary and generator (R); the differential harness and generators (C); IEEE-754 correct rounding of hardware int->float, * and / (fast path). Lean models of number.rs (fast path), lemire.rs, bellerophon.rs exist and agree with the compiled code on >= 200k component ops per feature set; the slow path (slow.rs/bigint.rs) is modelled by the oracle only."
 
 
@@ -30,12 +30,14 @@ def feature_sets(tier):
 
 def streams(tier, rng, fs, profile):
     n = 250 if tier == "quick" else 4000
-    return [
+    api = [
         ("g-hard", gens.float_parse_hard_ops(rng, fs, [10], n, rich=True, tails=8 if tier == "quick" else 120)),
         ("g-ties", gens.exact_tie_ops(rng, fs, per_q=6 if tier == "quick" else 60)),
         ("g-exp", gens.float_exp_ops(rng, fs, [10])),
         ("g-random", gens.float_random_ops(rng, fs, [10], 1500 if tier == "quick" else 30000)),
-    ] + gens_algos.algo_streams(rng, fs, tier)   # component level: compute_float / lemire / bellerophon / binary / fast path
+    ]
+    # pipe-*: the same inputs against the algorithmic pipeline model (Props.C01Main is about that model)
+    return api + gens_algos.apf_streams(api) + gens_algos.algo_streams(rng, fs, tier)   # component level: compute_float / lemire / bellerophon / binary / fast path
 
 
 def nontrivial(op, res):
